@@ -404,3 +404,10 @@ Fixpoint xrun (repI repP : bool) (w : xworld) (es : list xevent) : xworld * list
 Definition cat0 (ps : list xpol) (ptnum : nat) : cat :=
   {| c_pols := ps; c_sgs := []; c_igs := []; c_ptnum := ptnum; c_maxsg := 0; c_maxsh := 0; c_maxig := 0; c_maxix := 0 |}.
 Definition xworld0 (ps : list xpol) (ptnum : nat) : xworld := {| x_cat := cat0 ps ptnum; x_shards := []; x_ixs := [] |}.
+
+(* ================= write admission of one batch (coordinator) =================
+   injestionCtx.checkDBRP looks the policy up ONCE per batch and fixes minTime from its duration and the coordinator's
+   coarse clock (seconds); routeAndMapOriginRows then turns away every row with Timestamp < minTime. An ALTER that
+   lands while the batch is being routed does not change the threshold of that batch. *)
+Definition min_time (d nowsec : Z) : Z := if 0 <? d then nowsec * 1000000000 - d else 0.
+Definition admit_batch (d_at_lookup nowsec : Z) (ts : list Z) : list bool := map (write_accept d_at_lookup nowsec) ts.
